@@ -36,6 +36,9 @@ type ReplicaCfg struct {
 	// Twin: this replica does not receive read-only traffic nor transactions that
 	// are rejected before the ante handler completes (C11 twin).
 	Twin bool `json:"twin,omitempty"`
+	// ClockSkewNs: this replica's wall clock (time.Now) during every ABCI call is the block's time plus this
+	// skew; replica 0 always runs on the honest clock. No consensus result may depend on it.
+	ClockSkewNs int64 `json:"clock_skew_ns,omitempty"`
 }
 
 type GenVal struct {
